@@ -61,6 +61,7 @@ func sortSliceModel(fr *frame, a []value) value {
 
 func init() {
 	reg("(*sync.Map).Load", func(fr *frame, a []value) value {
+		sched.visible()
 		m := syncMapArg(a[0])
 		v, ok := m.m.lookup(a[1])
 		if !ok {
@@ -69,10 +70,12 @@ func init() {
 		return tuple{v, true}
 	})
 	reg("(*sync.Map).Store", func(fr *frame, a []value) value {
+		sched.visible()
 		syncMapArg(a[0]).m.insert(a[1], a[2])
 		return nil
 	})
 	reg("(*sync.Map).LoadOrStore", func(fr *frame, a []value) value {
+		sched.visible()
 		m := syncMapArg(a[0])
 		if v, ok := m.m.lookup(a[1]); ok {
 			return tuple{v, true}
@@ -81,6 +84,7 @@ func init() {
 		return tuple{a[2], false}
 	})
 	reg("(*sync.Map).Delete", func(fr *frame, a []value) value {
+		sched.visible()
 		syncMapArg(a[0]).m.delete(a[1])
 		return nil
 	})
@@ -98,6 +102,7 @@ func init() {
 	})
 	mu := func(v value) *syncMutex { return (*v.(*value)).(*syncMutex) }
 	reg("(*sync.Mutex).Lock", func(fr *frame, a []value) value {
+		sched.visible()
 		m := mu(a[0])
 		sched.block("mutex", func() bool { return !m.locked })
 		m.locked = true
